@@ -11,7 +11,6 @@ import (
 	"github.com/dominant-strategies/go-quai/core/rawdb"
 	"github.com/dominant-strategies/go-quai/core/types"
 	"github.com/dominant-strategies/go-quai/p2p/pb"
-	"github.com/dominant-strategies/go-quai/rlp"
 	"google.golang.org/protobuf/proto"
 )
 
@@ -134,24 +133,6 @@ func init() {
 						return nil, fmt.Errorf("ReadRawReceipts returned %d receipts", len(rs))
 					}
 					return rs[0], nil
-				}},
-			{Name: "rlpstore",
-				Enc: func(v interface{}) ([]byte, error) { return rlp.EncodeToBytes((*types.ReceiptForStorage)(v.(*types.Receipt))) },
-				Dec: func(b []byte, loc common.Location) (interface{}, error) {
-					r := new(types.ReceiptForStorage)
-					if err := rlp.DecodeBytes(b, r); err != nil {
-						return nil, err
-					}
-					return (*types.Receipt)(r), nil
-				}},
-			{Name: "json",
-				Enc: func(v interface{}) ([]byte, error) { return json.Marshal(v.(*types.Receipt)) },
-				Dec: func(b []byte, loc common.Location) (interface{}, error) {
-					r := new(types.Receipt)
-					if err := json.Unmarshal(b, r); err != nil {
-						return nil, err
-					}
-					return r, nil
 				}},
 		},
 	})
@@ -325,8 +306,8 @@ func init() {
 					}
 					return t, nil
 				}},
-			{Name: "json",
-				Enc: func(v interface{}) ([]byte, error) { return json.Marshal(*v.(*types.Termini)) },
+			{Name: "rpcjson",
+				Enc: func(v interface{}) ([]byte, error) { return json.Marshal(v.(*types.Termini).RPCMarshalTermini()) },
 				Dec: func(b []byte, loc common.Location) (interface{}, error) {
 					t := new(types.Termini)
 					if err := json.Unmarshal(b, t); err != nil {
